@@ -3,10 +3,15 @@
    call : Env -> Arg -> Res of the VALUES of its argument objects and returns the environment
    unchanged.  The theorem lifts this per-call frame condition to all call sequences sharing
    argument objects; the per-call frame condition of the real code is what the correspondence
-   check tests (partial, see DESIGN.md).  No axioms. *)
-From Coq Require Import List Bool Arith.
+   check tests (partial, see DESIGN.md).  No axioms.
+   Clean-room design (Model/Purity.v, Section CleanRoom): the library is a state machine
+   lib : St -> Env -> Arg -> St * Env * Res with a HIDDEN state (module globals, caches); the user
+   may edit the environment between calls (HMut); the reference of a call is the same call on the
+   current environment from the pristine hidden state s0 (a freshly forked process).  The check
+   compares every call of every generated history with that reference. *)
+From Coq Require Import List Bool Arith ZArith.
 Import ListNotations.
-From ByC Require Import Base.Result Model.Objects Proofs.Objects.
+From ByC Require Import Base.Result Harness.Compare Model.Objects Proofs.Objects Model.Purity Proofs.Purity.
 
 Theorem C15_environment_unchanged_by_any_call_sequence : forall (Env Arg Res : Type) (call : Env -> Arg -> Res) e l,
   run_calls call e l = (e, map (call e) l).
@@ -18,6 +23,96 @@ Theorem C15_repeated_calls_return_identical_results : forall (Env Arg Res : Type
   nth_error (snd (run_calls call e l)) i = nth_error (snd (run_calls call e l)) j.
 Proof. exact @repeated_calls_agree. Qed.
 Print Assumptions C15_repeated_calls_return_identical_results.
+
+(* A library whose every call is a function of the argument values: after ANY history (calls interleaved with
+   arbitrary user edits of the argument objects), started in ANY hidden state, every call was made on exactly the
+   environment the user built, returned the clean-room result for it, and the final environment is the user's. *)
+Theorem C15_any_history_equals_cleanroom_on_current_values :
+  forall (St Env Arg Res Mut : Type) (lib : St -> Env -> Arg -> St * Env * Res) (s0 : St) (user : Mut -> Env -> Env),
+  value_function lib s0 ->
+  forall (l : list (@hstep Arg Mut)) (s : St) (e : Env),
+    hist_trace lib user s e l
+      = map (fun ea => (fst ea, snd ea, cleanroom lib s0 (fst ea) (snd ea))) (user_calls user e l)
+    /\ hist_env lib user s e l = user_env user e l.
+Proof. exact @value_function_history_clean. Qed.
+Print Assumptions C15_any_history_equals_cleanroom_on_current_values.
+
+Theorem C15_every_call_of_a_history_equals_its_cleanroom_reference :
+  forall (St Env Arg Res Mut : Type) (lib : St -> Env -> Arg -> St * Env * Res) (s0 : St) (user : Mut -> Env -> Env),
+  value_function lib s0 ->
+  forall (s : St) (e : Env) (l : list (@hstep Arg Mut)) i ei ai ri,
+    nth_error (hist_trace lib user s e l) i = Some (ei, ai, ri) ->
+    ri = cleanroom lib s0 ei ai /\ nth_error (user_calls user e l) i = Some (ei, ai).
+Proof. exact @value_function_every_call. Qed.
+Print Assumptions C15_every_call_of_a_history_equals_its_cleanroom_reference.
+
+Theorem C15_equal_calls_on_equal_values_agree_after_user_edits :
+  forall (St Env Arg Res Mut : Type) (lib : St -> Env -> Arg -> St * Env * Res) (s0 : St) (user : Mut -> Env -> Env),
+  value_function lib s0 ->
+  forall (s : St) (e : Env) (l : list (@hstep Arg Mut)) i j ea r1 r2,
+    nth_error (hist_trace lib user s e l) i = Some (ea, r1) ->
+    nth_error (hist_trace lib user s e l) j = Some (ea, r2) -> r1 = r2.
+Proof. exact @value_function_equal_calls_agree. Qed.
+Print Assumptions C15_equal_calls_on_equal_values_agree_after_user_edits.
+
+(* Completeness of the comparison: a library that equals the clean-room reference on every history started in a
+   fresh process is a value function on every hidden state any history can reach. *)
+Theorem C15_cleanroom_comparison_is_complete :
+  forall (St Env Arg Res Mut : Type) (lib : St -> Env -> Arg -> St * Env * Res) (s0 : St) (user : Mut -> Env -> Env),
+  (forall e e' : Env, exists m, user m e = e') ->
+  (forall (e : Env) (l : list (@hstep Arg Mut)), history_clean lib s0 user s0 e l) ->
+  forall s, reachable lib s0 user s ->
+  forall e a, lib_res lib s e a = cleanroom lib s0 e a /\ lib_env lib s e a = e.
+Proof. exact @clean_histories_give_value_function. Qed.
+Print Assumptions C15_cleanroom_comparison_is_complete.
+
+(* Refuted by 3-step histories (vm_compute witnesses): a cache keyed by object identity
+   [analyse; scale the array in place; analyse], a cache keyed by the contents but not the setting
+   [n_cycles 3; 7; 3], and a module-level flag set by a helper [helper; analyse; analyse] — in the last one
+   the two analyses agree with each other, only the clean-room reference differs. *)
+Theorem C15_identity_keyed_cache_refuted :
+  length idc_history = 3 /\
+  trace_results (hist_trace idc_lib idc_user [] (7, 5%Z) idc_history) = [8%Z; 8%Z] /\
+  map (fun ea => cleanroom idc_lib [] (fst ea) (snd ea)) (user_calls idc_user (7, 5%Z) idc_history) = [8%Z; 13%Z] /\
+  ~ history_clean idc_lib [] idc_user [] (7, 5%Z) idc_history /\
+  ~ value_function idc_lib [].
+Proof. exact identity_cache_refuted. Qed.
+Print Assumptions C15_identity_keyed_cache_refuted.
+
+Theorem C15_partial_key_cache_refuted :
+  length pkc_history = 3 /\
+  trace_results (hist_trace pkc_lib idc_user [] (7, 5%Z) pkc_history) = [8%Z; 8%Z; 8%Z] /\
+  map (fun ea => cleanroom pkc_lib [] (fst ea) (snd ea)) (user_calls idc_user (7, 5%Z) pkc_history) = [8%Z; 12%Z; 8%Z] /\
+  ~ history_clean pkc_lib [] idc_user [] (7, 5%Z) pkc_history /\
+  ~ value_function pkc_lib [].
+Proof. exact partial_key_cache_refuted. Qed.
+Print Assumptions C15_partial_key_cache_refuted.
+
+Theorem C15_module_flag_invisible_within_a_history_refuted_by_cleanroom :
+  length flag_history = 3 /\
+  trace_results (hist_trace flag_lib idc_user false (7, 5%Z) flag_history) = [0%Z; 9%Z; 9%Z] /\
+  nth_error (trace_results (hist_trace flag_lib idc_user false (7, 5%Z) flag_history)) 1 =
+  nth_error (trace_results (hist_trace flag_lib idc_user false (7, 5%Z) flag_history)) 2 /\
+  hist_env flag_lib idc_user false (7, 5%Z) flag_history = (7, 5%Z) /\
+  map (fun ea => cleanroom flag_lib false (fst ea) (snd ea)) (user_calls idc_user (7, 5%Z) flag_history) = [0%Z; 8%Z; 8%Z] /\
+  ~ history_clean flag_lib false idc_user false (7, 5%Z) flag_history /\
+  ~ value_function flag_lib false.
+Proof. exact module_flag_refuted_only_by_cleanroom. Qed.
+Print Assumptions C15_module_flag_invisible_within_a_history_refuted_by_cleanroom.
+
+(* The instance evaluated by the correspondence check (bad_cleanroom) is a value function and predicts "equal to the
+   clean-room result" and "argument objects unchanged" for every call; its final environment is the user's. *)
+Theorem C15_correspondence_model_predicts_clean :
+  forall x : list Z * list (@hstep nat (list Z)),
+  Forall (fun r : nat * bool * bool => snd (fst r) = true /\ snd r = true) (snd (run_cleanroom x)).
+Proof. exact run_cleanroom_all_flags_true. Qed.
+Print Assumptions C15_correspondence_model_predicts_clean.
+
+Theorem C15_correspondence_model_final_environment :
+  forall (e0 : list Z) (steps : list (@hstep nat (list Z))),
+  fst (run_cleanroom (e0, steps)) = user_env ci_user e0 steps.
+Proof. exact run_cleanroom_final_env. Qed.
+Print Assumptions C15_correspondence_model_final_environment.
 
 (* Legacy: compute_features writing into its arguments is NOT of this form — see
    Props/C14.v, C14_legacy_stale_state_refuted *)
